@@ -183,11 +183,11 @@ def add_cand_edges(
         node_frame_dict = _compute_node_frame_dict(cand_graph)
 
     frames = sorted(node_frame_dict.keys())
-    prev_node_ids = node_frame_dict[frames[0]]
-    prev_kdtree = create_kdtree(cand_graph, prev_node_ids)
     for frame in tqdm(frames):
         if frame + 1 not in node_frame_dict:
             continue
+        prev_node_ids = node_frame_dict[frame]
+        prev_kdtree = create_kdtree(cand_graph, prev_node_ids)
         next_node_ids = node_frame_dict[frame + 1]
         next_kdtree = create_kdtree(cand_graph, next_node_ids)
 
@@ -199,6 +199,3 @@ def add_cand_edges(
             for next_node_index in next_node_indices:
                 next_node_id = next_node_ids[next_node_index]
                 cand_graph.add_edge(prev_node_id, next_node_id)
-
-        prev_node_ids = next_node_ids
-        prev_kdtree = next_kdtree
